@@ -68,6 +68,8 @@ Fixpoint update (st : server) (id : nat) (s : sess) : server :=
 Definition is_start (t : N) : bool := (t =? 10) || (t =? 20) || (t =? 30) || (t =? 60).
 Definition is_final (t : N) : bool := (t =? 13) || (t =? 23) || (t =? 33) || (t =? 71).
 Definition needs_tunnel (t : N) : bool := (64 <? t) && (t <? 255).
+Definition is_client (t : N) : bool :=
+  (t =? 12) || (t =? 22) || (t =? 32) || (t =? 62) || (t =? 64) || (t =? 66) || (t =? 68) || (t =? 70).
 
 (* the responder proper: given the session, returns (response type, new session, effects); 255 = rejected *)
 Definition respond (t : N) (s : sess) (r : request) : N * sess * list effect :=
@@ -142,7 +144,9 @@ Definition handle (st : server) (r : request) : server * response * list effect 
     end
   else match proto_of t with
   | PNone => (st, RType 255, [])                                   (* unsupported message type; no token is touched *)
-  | p => if is_start t then handle_start st p r else handle_cont st p r
+  | p => if is_start t then handle_start st p r
+         else if is_client t || needs_tunnel t then handle_cont st p r
+         else (st, RType 0, [])       (* a server-to-client type: the responder has no case for it and looks at nothing *)
   end.
 
 Fixpoint run (st : server) (rs : list request) : server * list (response * list effect) :=
